@@ -370,7 +370,8 @@ func (p *Path) inputsOf(model map[*sym.Term]*sym.Term) map[string]string {
 }
 
 // Assert checks pc ∧ ¬c. A satisfying model is recorded as a counterexample
-// (to be replayed natively); the path continues under c.
+// (to be replayed natively). Assertions are independent: the path condition is
+// not strengthened by c, so one failing assertion does not mask the next.
 func (p *Path) Assert(c *sym.Term, label string) {
 	p.ex.Reached[label]++
 	if c.IsTrue() {
@@ -382,7 +383,12 @@ func (p *Path) Assert(c *sym.Term, label string) {
 			p.abort("incomplete", "solver unknown at assertion "+label)
 		}
 		p.recordCex(label, p.model, "")
-		p.abort("done", "assertion constant false")
+		return
+	}
+	// cheap refutation by the current model
+	if v := p.eval(c); v != nil && v.IsFalse() {
+		p.recordCex(label, p.model, "")
+		return
 	}
 	nc := p.ctx.Not(c)
 	res := p.ex.Solver.Check(p.ex.Lim.AssertTimeout, nc)
@@ -393,16 +399,7 @@ func (p *Path) Assert(c *sym.Term, label string) {
 			p.abort("incomplete", "model fetch failed at assertion "+label)
 		}
 		p.recordCex(label, m, "")
-		ok, known := p.feasible(c)
-		if !known {
-			p.abort("incomplete", "solver unknown after assertion "+label)
-		}
-		if !ok {
-			p.abort("done", "assertion fails on the whole path")
-		}
-		p.assume(c)
 	case sym.Unsat:
-		p.assume(c)
 	default:
 		p.abort("incomplete", "solver unknown at assertion "+label+": "+p.ex.Solver.LastErr)
 	}
